@@ -8,13 +8,18 @@ package main
 import (
 	"context"
 	"fmt"
+	"io"
 	"sync"
 	"time"
+
+	"github.com/ipld/go-ipld-prime"
+	"github.com/ipld/go-ipld-prime/linking"
 
 	"github.com/ipfs/go-cid"
 	"github.com/libp2p/go-libp2p/core/peer"
 
 	"github.com/ipfs/go-graphsync"
+	gsimpl "github.com/ipfs/go-graphsync/impl"
 	gsmsg "github.com/ipfs/go-graphsync/message"
 
 	"verif/harness/internal/cw"
@@ -25,7 +30,10 @@ import (
 type rpauseCase struct {
 	Kind  string   `json:"kind"` // "rpause"
 	Seed  uint64   `json:"seed"`
-	Block int      `json:"block"` // -1 = drawn from the seed
+	Block int      `json:"block"`          // -1 = drawn from the seed
+	Mode  string   `json:"mode,omitempty"` // "hook" (pause from the outgoing-block hook) | "api" (PauseResponse while the executor is held before a load)
+	Gate  int      `json:"gate,omitempty"` // api mode: number of links loaded before the executor is held
+	Shape string   `json:"shape,omitempty"`
 	Desc  string   `json:"desc,omitempty"`
 	Tags  []string `json:"tags,omitempty"`
 }
@@ -95,7 +103,12 @@ func (w *wireRec) Disconnected(p peer.ID)            {}
 
 func runRPauseCase(w *cw.Writer, rc rpauseCase, kind string) error {
 	r := rng.New(rc.Seed)
-	d, sel, desc := genWorld(r, "")
+	shape := rc.Shape
+	if shape == "" && r.P(1, 6) {
+		shape = "empty"
+	}
+	d, sel, desc := genWorld(r, shape)
+	rc.Shape = shape
 	tb := newTables()
 	u := newUniverse(d)
 	pl, err := harvest(d, sel, tb)
@@ -116,11 +129,18 @@ func runRPauseCase(w *cw.Writer, rc rpauseCase, kind string) error {
 	nblk := 0
 	anyMissing := false
 	for _, it := range st {
-		if it.blk >= 0 {
-			nblk++
+		if it.blk >= 0 && len(d.Blocks[it.blk].Data) > 0 {
+			nblk++ // the outgoing-block hook runs for blocks with data only
 		}
 		if it.act == 2 {
 			anyMissing = true
+		}
+	}
+	mode := rc.Mode
+	if mode == "" {
+		mode = "hook"
+		if r.P(1, 2) {
+			mode = "api"
 		}
 	}
 	block := rc.Block
@@ -128,6 +148,38 @@ func runRPauseCase(w *cw.Writer, rc rpauseCase, kind string) error {
 		block = 0
 		if nblk > 0 && !r.P(1, 8) {
 			block = r.Range(1, nblk)
+		}
+	}
+	gate := rc.Gate
+	nextKind := ""
+	if mode == "api" {
+		block = 0
+		if rc.Gate == 0 {
+			// hold the executor before the load of stream entry `gate` (0-based), preferring a link the responder lacks
+			var missingIdx []int
+			for i, it := range st {
+				if it.act == 2 && i > 0 {
+					missingIdx = append(missingIdx, i)
+				}
+			}
+			switch {
+			case len(missingIdx) > 0 && r.P(2, 3):
+				gate = rng.Pick(r, missingIdx)
+			case len(st) > 1:
+				gate = r.Range(1, len(st)-1)
+			default:
+				mode = "hook"
+			}
+		}
+		if mode == "api" && gate < len(st) {
+			switch {
+			case st[gate].act == 2:
+				nextKind = "next_link_missing"
+			case len(d.Blocks[st[gate].cid].Data) == 0:
+				nextKind = "next_block_empty"
+			default:
+				nextKind = "next_link_present"
+			}
 		}
 	}
 	world, err := e2e.NewWorld(2)
@@ -138,7 +190,32 @@ func runRPauseCase(w *cw.Writer, rc rpauseCase, kind string) error {
 	for _, i := range R {
 		world.Nodes[1].Store.Put(dagLink(d.Blocks[i]), d.Blocks[i].Data)
 	}
-	resp := world.Start(1)
+	respLsys := world.Nodes[1].Store.LinkSystem()
+	baseRead := respLsys.StorageReadOpener
+	atGate := make(chan struct{}, 1)
+	release := make(chan struct{})
+	var relOnce sync.Once
+	doRelease := func() { relOnce.Do(func() { close(release) }) }
+	defer doRelease()
+	var gmu sync.Mutex
+	nloads := 0
+	respLsys.StorageReadOpener = func(lctx linking.LinkContext, l ipld.Link) (io.Reader, error) {
+		if mode == "api" {
+			gmu.Lock()
+			k := nloads
+			nloads++
+			gmu.Unlock()
+			if k == gate {
+				select {
+				case atGate <- struct{}{}:
+				default:
+				}
+				<-release
+			}
+		}
+		return baseRead(lctx, l)
+	}
+	resp := gsimpl.New(world.Ctx, world.Nodes[1].Net, respLsys)
 	resp.RegisterIncomingRequestHook(func(p peer.ID, rd graphsync.RequestData, ha graphsync.IncomingRequestHookActions) {
 		ha.ValidateRequest()
 	})
@@ -166,16 +243,36 @@ func runRPauseCase(w *cw.Writer, rc rpauseCase, kind string) error {
 		return fmt.Errorf("send request: %w", err)
 	}
 	hang := false
+	apiPaused := false
+	if mode == "api" {
+		select {
+		case <-atGate:
+			// the executor is held before its next load: pause through the API, then let it go on
+			if err := resp.Pause(ctx, id); err == nil {
+				apiPaused = true
+			}
+			doRelease()
+		case <-rec.done:
+		case <-ctx.Done():
+			hang = true
+		}
+	}
+	unpauseOK := true
 	select {
 	case <-rec.done:
 	case <-rec.paused:
 		rec.mu.Lock()
 		rec.unpauseCalled = true
 		rec.mu.Unlock()
-		deadline := time.Now().Add(10 * time.Second)
+		deadline := time.Now().Add(3 * time.Second)
 		for {
 			// the response is parked a moment after the status left: wait for that condition
-			if err := resp.Unpause(ctx, id); err == nil || time.Now().After(deadline) {
+			err := resp.Unpause(ctx, id)
+			if err == nil {
+				break
+			}
+			if time.Now().After(deadline) {
+				unpauseOK = false
 				break
 			}
 			select {
@@ -197,7 +294,13 @@ func runRPauseCase(w *cw.Writer, rc rpauseCase, kind string) error {
 	if anyMissing {
 		want = graphsync.RequestCompletedPartial
 	}
-	tags := []string{"kind:" + kind, "rpause"}
+	tags := []string{"kind:" + kind, "rpause", "mode:" + mode}
+	if nextKind != "" {
+		tags = append(tags, nextKind)
+	}
+	if mode == "api" && apiPaused {
+		block = gate + 1000 // recorded as a pause (index irrelevant to the monitor's last clause below)
+	}
 	if block == 0 {
 		tags = append(tags, "no_pause")
 	} else if rec.pausedSeen {
@@ -206,11 +309,21 @@ func runRPauseCase(w *cw.Writer, rc rpauseCase, kind string) error {
 		tags = append(tags, "pause_not_reached")
 	}
 	rc.Kind = "rpause"
+	rc.Mode = mode
+	rc.Gate = gate
 	rc.Block = block
 	rc.Desc = desc + fmt.Sprintf(" plan-links=%d R=%v block=%d", pl.nodes(), R, block)
 	rc.Tags = tags
-	term := fmt.Sprintf("Build_rpcase %s %s %d %s %s %s %s %s", pl.coq(), idxList(R), block, cw.List(rec.md), cw.NList(rec.blocks),
-		cw.Bool(rec.pausedSeen), cw.Bool(rec.blockInPause), cw.Bool(rec.lastStatus == want))
+	blockForMonitor := block
+	if mode == "api" {
+		// an API pause may find the response already finished: then there is nothing to see
+		blockForMonitor = 0
+		if apiPaused && !rec.pausedSeen {
+			blockForMonitor = 1
+		}
+	}
+	term := fmt.Sprintf("Build_rpcase %s %s %d %s %s %s %s %s %s", pl.coq(), idxList(R), blockForMonitor, cw.List(rec.md), cw.NList(rec.blocks),
+		cw.Bool(rec.pausedSeen), cw.Bool(rec.blockInPause), cw.Bool(unpauseOK), cw.Bool(rec.lastStatus == want))
 	idx := w.Add(term, rc, rec.pausedSeen, tags...)
 	if hang {
 		w.Violation(idx, "paused and unpaused response did not finish within 20s", "responder-hang")
